@@ -192,6 +192,12 @@ def signed_stream(root: Node, conv: str = "mod256") -> tuple[bytes, bool]:
     return bytes(out), ok
 
 
+def canon(root: Node) -> tuple:
+    """The signed content as a structure (independent of any length-octet convention): element name, signed attributes
+    sorted by name, children in order."""
+    return (root.name, tuple(sorted((k, v) for k, v in root.attrs if k not in UNSIGNED_ATTRS)), tuple(canon(c) for c in root.children))
+
+
 def signature(root: Node, pwhash: bytes, conv: str = "mod256") -> bytes:
     stream, _ = signed_stream(root, conv)
     tail = bytearray()
